@@ -199,6 +199,17 @@ class Weaver:
         except LookupError as ex:
             raise Lost("%s: %s" % (f, ex))
         text = src[s:e]
+        # R0: of the item's own attributes only `derive(Clone, Copy)` is carried over (others are dropped)
+        kept = []
+        pre = src[:s]
+        mm = re.search(r"((?:\s*(?:///[^\n]*\n|#\[[^\]]*\]\s*))+)\s*$", pre)
+        if mm:
+            for dm in re.finditer(r"#\[derive\(([^)]*)\)\]", mm.group(1)):
+                for d in dm.group(1).split(","):
+                    d = d.strip()
+                    if d in ("Clone", "Copy", "PartialEq", "Eq") and d not in kept:
+                        kept.append(d)
+        derive_prefix = "#[derive(%s)]\n" % ", ".join(kept) if kept else ""
         if not kv.get("keep_attrs"):
             text = rl.strip_attrs_and_docs(text)
         if kv.get("nopub"):
@@ -206,7 +217,7 @@ class Weaver:
         u.log.append(dict(kind="item", file=f, item=kv["kind"] + " " + kv["name"], impl=kv.get("impl"),
                           repo_line=src.count("\n", 0, s) + 1, sha_repo=_sha(src[s:e]), sha_emitted=_sha(text),
                           edits=["R0 attributes/doc comments dropped"] if text != src[s:e] else []))
-        u.emit(text + "\n", ("edit", f, s, "R0") if text != src[s:e] else ("repo", f, s, None))
+        u.emit(derive_prefix + text + "\n", ("edit", f, s, "R0") if (derive_prefix or text != src[s:e]) else ("repo", f, s, None))
 
     # ------------------------------------------------------------------
     def _extract(self, head, sections, u, tmpl_rel):
@@ -572,6 +583,54 @@ class Weaver:
                 add(p, p, " %s += 1;\n" % kv, "R1", 90)
                 elog.append("R1: `%s` => indexed while loop over `%s` (line %d)" % (
                     re.sub(r"\s+", " ", hdr.strip()), E, line(T(lp["kw_tok"]).start)))
+        # R10: `continue` in a `for` loop (Verus has none): `if C { continue; } REST` => `if C { } else { REST }`
+        if "R10" not in norules:
+            for n, lp in enumerate(loops):
+                if lp["kw"] != "for":
+                    continue
+                # nested loops own their continues
+                inner = [l2 for l2 in loops if l2["body_open"] > lp["body_open"] and l2["body_close"] < lp["body_close"]]
+                def in_inner(k):
+                    return any(l2["body_open"] < k < l2["body_close"] for l2 in inner)
+                conts = [k for k in range(lp["body_open"] + 1, lp["body_close"])
+                         if T(k).kind == "ident" and T(k).text == "continue" and not in_inner(k)]
+                if not conts:
+                    continue
+                # top-level statements of the body
+                k = lp["body_open"] + 1
+                closers = 0
+                handled = set()
+                while k < lp["body_close"]:
+                    t = T(k)
+                    if t.kind == "punct" and t.text in rl.OPEN:
+                        k = rl.match_close(toks, k) + 1
+                        continue
+                    if t.kind == "ident" and t.text == "if":
+                        # find the block
+                        j = k + 1
+                        while not (T(j).kind == "punct" and T(j).text == "{"):
+                            if T(j).kind == "punct" and T(j).text in "([":
+                                j = rl.match_close(toks, j)
+                            j += 1
+                        e = rl.match_close(toks, j)
+                        inner_sig = [q for q in range(j + 1, e) if T(q).kind not in ("ws", "comment")]
+                        nxt = e + 1
+                        while T(nxt).kind in ("ws", "comment"):
+                            nxt += 1
+                        if len(inner_sig) == 2 and T(inner_sig[0]).text == "continue" and T(inner_sig[1]).text == ";" \
+                                and not (T(nxt).kind == "ident" and T(nxt).text == "else"):
+                            add(T(inner_sig[0]).start, T(inner_sig[1]).end, "", "R10")
+                            add(T(e).end, T(e).end, " else {", "R10", 10)
+                            closers += 1
+                            handled.add(inner_sig[0])
+                            elog.append("R10: `if .. { continue; }` => if/else wrapping the rest of the loop body (line %d)" % line(T(k).start))
+                        k = e + 1
+                        continue
+                    k += 1
+                if set(conts) != handled:
+                    raise Lost("%s::%s: R10 side condition violated (a `continue` that is not the sole statement of a top-level `if`)" % (f, fn))
+                pz = T(lp["body_close"]).start
+                add(pz, pz, "}" * closers + "\n", "R10", 55)
         # R2: debug_assert*/assert*
         if "R2" not in norules:
             for mc in rl.find_macros(toks, lo, hi, {"debug_assert", "debug_assert_eq", "debug_assert_ne",
